@@ -150,6 +150,9 @@ def run(rep, drv):
 	rng = random.Random(rep.seed * 1000003 + 4)
 	for k in range(1500 if th else 150):
 		kernel_case(rep, drv, simlib.gen_spec(rng, th))
+	# echelon base-stock under disruptions of every type (the echelon position counts what is held at the door, paused in transit, ...)
+	for k in range(600 if th else 80):
+		kernel_case(rep, drv, simlib.gen_spec(rng, th, {'kind': 'serial', 'policy': 'EBS', 'pdis': .8}))
 	ebs_equiv(rep, drv, 600 if th else 80, th)
 	mplib.run_mp_stream(rep, drv, 'C04', THEOREM + ' + Props/MP (ipMulti_single, earmark_bounds, rmOrders_sum)', 400 if th else 50, th, seed_off=14)
 
